@@ -171,6 +171,14 @@ def check_case(case):
             items = _query_actions._list_items(cp)
             vnames = set(k for k, _ in (withvars[0][1] if withvars and withvars[0][0] == "Variables" else []))
             own = dict((n, set("".join(k.split()) for k, _ in e)) for n, e in withvars)
+            # defining a variable changes no section: every own key of every section is still listed exactly once
+            # (also when a variable happens to carry the same name as a key of that section)
+            want_labels = sorted("%s:%s" % (n, "".join(k.split())) for n, e in withvars for k, _ in e)
+            got_labels = sorted(k for k, _ in items)
+            if got_labels != want_labels:
+                missing = [x for x in want_labels if x not in got_labels]
+                extra_ = [x for x in got_labels if x not in want_labels]
+                v.append(("listing_incomplete", "--list-items: missing %r, unexpected %r\n%s" % (missing[:6], extra_[:6], ctx)))
             for label, val in items:
                 sec, key = _query_actions.split_item_label(label) if hasattr(_query_actions, "split_item_label") else label.split(":", 1)
                 if sec != "Variables" and key in vnames and key not in own.get(sec, set()):
